@@ -22,7 +22,7 @@ MANIFEST = {
                  'insertion form; compared with html.escape',
     'text': 'Every code point (BMP in quick, all 0x110000 in thorough) and '
             'every string up to length 4/5 over & < > " \' a e-acute emoji '
-            'blank, as str and as bytes in the template encoding, is inserted '
+            'blank newline, plus every special character at every position of multi-line / long / entity-bearing carriers, as str and as bytes in the template encoding, is inserted '
             'through 24 forms (incl. a second insertion after a clean / tainted one) (entity, html_quote in three syntaxes, '
             'expression, full path with size/null/missing/etc, '
             'fmt=html-quote, plain) on the real code; each result must equal '
@@ -45,7 +45,13 @@ ASSUMPTIONS = ['expected text is html.escape(value, quote=True) from the '
                'templates are compiled once per worker and reused (state '
                'across renders is the subject of C17, not of this check)']
 
-ALPHA = ['&', '<', '>', '"', "'", 'a', '\xe9', '\U0001F600', ' ']
+ALPHA = ['&', '<', '>', '"', "'", 'a', '\xe9', '\U0001F600', ' ', '\n']
+# longer values: every special character at every position of carriers that
+# have several lines (all line-end conventions), exceed typical buffer /
+# fast-path sizes, or already contain entity-like text
+CARRIERS = ['one\ntwo\r\nthree\rfour\x85five\u2028six\x0bseven\x0c\x1c8',
+            'x' * 70, 'ab cd ' * 14, 'a&amp;b&lt;c&#39;d&quot;e&#x27;f',
+            '\n\n', '\xe9\u20ac\U0001F600 z']
 
 # (id, class, source, quoting?, path)
 FORMS = [
@@ -107,6 +113,10 @@ def cases(tier):
         else:
             for a, b in itertools.product(range(len(ALPHA)), repeat=2):
                 yield {'kind': 'str', 'n': n, 'pre': [a, b]}
+    for ci in range(len(CARRIERS)):
+        yield {'kind': 'carrier', 'c': ci}
+        for enc in ('utf-8', 'latin-1'):
+            yield {'kind': 'carrier', 'c': ci, 'enc': enc}
     for enc in ('utf-8', 'latin-1'):
         for lo in range(0, 0x10000 if tier == 'quick' else 0x110000,
                         CHUNK * 4):
@@ -126,6 +136,13 @@ def values(case):
     if k in ('cp', 'bytes-cp'):
         for cp in range(case['lo'], case['hi']):
             yield chr(cp)
+    elif k == 'carrier':
+        c = CARRIERS[case['c']]
+        yield c
+        for ch in '&<>"\'':
+            for i in range(len(c) + 1):
+                yield c[:i] + ch + c[i:]
+            yield ch + c + ch
     else:
         pre = ''.join(ALPHA[i] for i in case['pre'])
         for rest in itertools.product(ALPHA, repeat=case['n'] - len(pre)):
